@@ -29,7 +29,7 @@ func init() {
 			"a scalar-rewriting modifier and an array-appending modifier, plus the slice lattice for Remove; after each call the data is compared with the state J's locations prescribe (exact for Remove, Del, Modify; postconditions for Set), *One forms must change at most one location, " +
 			"the gen twin must end in the corresponding state, the same request on jp.Keyed/jp.RemovableIndexed collections and (Remove) on typed Go slices must end in the state reached on maps and slices, and failures must be 'can not ...' errors, never panics. also magnitudes at and near the int limits, and Remove/RemoveOne/Modify through $[?(@ op $[k])] and $.list[?(@ op $.list[k])] for every array over {1,2,3} of length 2-4 (a sample of length 5), every k and comparison. also Set/SetOne/Modify/ModifyOne of nil and of a string below maps reached by reflection (a named map type, a pointer to a map). non-trivial: J selects at least one location or the path creates elements; distinct by digest of (operation, path, data)",
 		Assumptions: []string{
-			"removals happen innermost first and a filter further out is evaluated on the data as it is by then: for Remove/Del with a filter every state reached by removing, step by step, outermost selected locations of the current state is accepted, each step strictly nearer to the root than the one before (a bounded search; hitting the bound leaves the case undecided)",
+			"removals happen innermost first and a filter further out is evaluated on the data as it is by then: for Remove/Del with a filter every state reached by removing, step by step, outermost selected locations of the current state is accepted, each step strictly nearer to the root than the one before - or, with an operand rooted at the document, further members of the same object, which are deleted in place in map order - (a bounded search; hitting the bound leaves the case undecided)",
 			"Set: a location above a member that the call creates may hold a container instead of the value (the inner location was written last)",
 			"Modify with <=, >=, == against an operand inside the filtered array replaces the operand's own element before the later comparisons: not run",
 			"the twin comparison requires Get to agree on every prefix of the path (Set creates members below what an inner fragment selects)",
@@ -666,13 +666,30 @@ func (ck *checker) check(op string, p jpref.Path, d0 any, enum bool, modKind str
 			// search; a search that hits its bound leaves the case undecided, never a violation).
 			// Within one container all members are tested against the same state, so a later step only
 			// removes locations strictly nearer to the root than everything removed before it.
+			// Exception: members of an OBJECT are deleted in place while the other members are still being
+			// tested, so with an operand rooted at the document a later member of the same object may be
+			// tested against a document that has already lost an earlier one (in Go's map order).
 			type st struct {
 				v     any
-				limit int // depth bound for the next step
+				limit int  // depth bound for the next step
+				same  bool // object members at depth == limit may follow (document operand, members removed so far at that depth were object members)
 			}
+			isMember := func(k string) bool {
+				i := strings.LastIndex(k, "/")
+				if i < 0 || i+1 >= len(k) {
+					return false
+				}
+				for _, ch := range k[i+1:] {
+					if ch < '0' || ch > '9' {
+						return true
+					}
+				}
+				return false
+			}
+			rootOp := hasRootOperand(p)
 			depthOf := func(k string) int { return strings.Count(k, "/") }
 			seen := map[string]bool{}
-			front := []st{{d0, 1 << 30}}
+			front := []st{{d0, 1 << 30, false}}
 			found, capped := false, false
 			target := treegen.Show(normTree(result))
 		search:
@@ -686,7 +703,7 @@ func (ck *checker) check(op string, p jpref.Path, d0 any, enum bool, modKind str
 					o, _ := outermost(ls)
 					var ks []string
 					for _, k := range keys(o) {
-						if depthOf(k) < sv.limit {
+						if depthOf(k) < sv.limit || (sv.same && depthOf(k) == sv.limit && isMember(k)) {
 							ks = append(ks, k)
 						}
 					}
@@ -697,12 +714,14 @@ func (ck *checker) check(op string, p jpref.Path, d0 any, enum bool, modKind str
 					for mask := 1; mask < 1<<len(ks); mask++ {
 						sub := map[string]bool{}
 						lim := 1 << 30
+						members := rootOp
 						for i, k := range ks {
 							if mask&(1<<i) != 0 {
 								sub[k] = true
 								if d := depthOf(k); d < lim {
 									lim = d
 								}
+								members = members && isMember(k)
 							}
 						}
 						var w any
@@ -717,7 +736,7 @@ func (ck *checker) check(op string, p jpref.Path, d0 any, enum bool, modKind str
 							want = w
 							break search
 						}
-						key += fmt.Sprint("@", lim)
+						key += fmt.Sprint("@", lim, members)
 						if seen[key] {
 							continue
 						}
@@ -726,7 +745,7 @@ func (ck *checker) check(op string, p jpref.Path, d0 any, enum bool, modKind str
 							capped = true
 							break search
 						}
-						next = append(next, st{w, lim})
+						next = append(next, st{w, lim, members})
 					}
 				}
 				front = next
